@@ -275,6 +275,7 @@ theorem signals_spec (E : Env) (S : Schema) (old : Elem) (x : Input) (out : SetO
     simp only [setElem] at h
     split at h
     · simp at h
+    · simp only [Except.ok.injEq] at h; subst h; exact ⟨[], rfl, by simp⟩
     · split at h
       · simp at h
       · simp only [Except.ok.injEq] at h; subst h
